@@ -926,11 +926,16 @@ RULE = ('per harness TU every operation sequence its op masks admit (depth 1: al
         'random operand shapes (rank 1..3, extents 1..4) and arguments in the accepted domain, each evaluated with every lazy/eager split '
         '(bit i of mat = step i through array::fn); per composition: view read element-wise vs eval (row-major, column-major, old resolver), '
         'caller-supplied outputs of the right shape (both layouts) and of a wrong shape; fixed/bounded/dynamic operand storage; maybe-typed views. '
-        'non-trivial = depth >= 2, a tree, a caller-supplied output, a maybe-typed view, or a non-dynamic storage kind')
+        'non-trivial = depth >= 2, a tree, a caller-supplied output, a maybe-typed view, or a non-dynamic storage kind. '
+        'Mixed scope (op mixb / mixu): every ordered pairing of operand kinds fixed_ndarray / hybrid_ndarray / dynamic ndarray / raw array / nested std::array / '
+        'std::vector / number (std::vector only with rank-1-capable partners; 43 pairings) x element-type pairs from {i32,f32,f64,i8,u8}^2 (quick: (f64,i32), (i32,f64), (i8,u8) for add on '
+        'every pairing + a 1/23 sample of all (pair, function in add/multiply/subtract/less) combinations; thorough: all 25 pairs for add + a 1/11 sample) and unary '
+        'negative / fabs / positive on every kind x element type: element type and every element of bare eval(view) (older resolver eval_t) and of array::fn vs the lazy view vs NumPy')
 EXHAUSTIVE = {'quick': False, 'thorough': False}
 ANCHORS = {'NmVerif.Eval.evalInto': 'array::evaluator_t<view,none>::operator()(output&) (eval.hpp:141-170), hook event 3 on the silent return',
            'NmVerif.Eval.evalFresh': 'array::evaluator_t<view,none>::operator()() + detail::apply_resize (eval.hpp:179-192), resolvers eval_result_t<ROW_MAJOR|COLUMN_MAJOR>',
            'NmVerif.Driver.C10 eval_maybe (Option.map evalFresh)': 'array::detail::eval maybe lifting (eval.hpp:218-277)',
+           'NmVerif.Eval.evalFreshCast / evalIntoCast (Eval/Cast.lean), driver op eval_cast': 'the copy loop of evaluator_t when the result element type differs from the view\'s (implicit conversion); result element type = get_element_type_t<view> in every branch of meta::resolve_unary_array_type / resolve_binary_array_type (eval.hpp:395-672, resolver eval_t :888-948) and of eval_result_t; harness/h_c10mx.cpp',
            'Arr (shape + get) as view denotation': 'nmtools::shape(view) / apply_at(view, ndindex(shape)[i]) read by the harness for every composition'}
 MANIFEST = dict(
     text='Proof: Lean theorems about the evaluator model over an ARBITRARY view denotation (any shape, any element function): evaluating into a '
